@@ -127,6 +127,9 @@ def check(ctx: Ctx):
     from ..rules import support
 
     support.check_track_accessors(ctx)
+    from ..rules import empty as _empty
+
+    support.compose(ctx, _empty.check_cdist, keep=("EMPTY", "INDEX"), site_filter=lambda s_: s_.endswith(":only-emptiness") or s_.endswith(":unfiltered"))
     ctx.expect("ACCESSOR", 4)
     ctx.expect("METRIC", 4)
     ctx.expect("STRICT", 1)
